@@ -363,7 +363,7 @@ def static_case_st(draw):
         reqs.append(sp["path"])
     reqs.append("/")
     return {"tree": spec, "listing": draw(st.booleans()), "reqs": reqs,
-            "assembly": draw(st.sampled_from(["handler", "start_server", "locations"])),
+            "assembly": draw(st.sampled_from(["handler", "start_server", "locations", "certrules"])),
             "cuts": draw(st.integers(0, 3))}
 
 
@@ -398,11 +398,31 @@ def run_static(case: dict):
                                                       document_root=sub if os.path.isdir(sub) else root,
                                                       enable_directory_listing=case["listing"])]
                 cfg = ServerConfig(**kw)
+                extra = {}
+                if case["assembly"] == "certrules":
+                    # every request is answered by the real CertificateAuth (no client certificate is presented)
+                    from nauyaca.server.middleware import CertificateAuthConfig, CertificateAuthPathRule
+
+                    extra["certificate_auth_config"] = CertificateAuthConfig(path_rules=[
+                        CertificateAuthPathRule(prefix="/sub/", require_cert=True, allowed_fingerprints={"0" * 64}),
+                        CertificateAuthPathRule(prefix="/", require_cert=True)])
                 factory, sslctx, task = await stacks.capture_start_server(loop, cfg, enable_directory_listing=case["listing"],
-                                                                          enable_rate_limiting=False)
+                                                                          enable_rate_limiting=False, **extra)
             out = []
             for rq in case["reqs"]:
                 data = ("gemini://localhost" + rq).encode("utf-8", "surrogateescape") + b"\r\n"
+                if case["assembly"] == "certrules":
+                    # certificate rules select the PyOpenSSL stack: go through real TLS in memory
+                    from vlib import memnet
+
+                    cctx = memnet.permissive_client_ctx(cert=certs.get("ec-a") if len(out) % 2 else None)
+                    conn = memnet.ServerConn(loop, factory, sslctx, cctx)
+                    if await conn.handshake():
+                        await conn.request(data)
+                        await asyncio.sleep(40)
+                        await conn.pump()
+                    out.append((rq, _TlsView(conn)))
+                    continue
                 tr = FakeTransport(loop)
                 tr.attach(factory())
                 k = case["cuts"]
